@@ -40,6 +40,7 @@ from cnfgen.formula.cnfio import guess_output_format
 from cnfgen.clitools.cmdline import paginate_or_redirect_stdout
 from cnfgen.clitools.cmdline import setup_SIGINT
 from cnfgen.clitools.cmdline import CLIParser, CLIError, CLIHelpFormatter
+from cnfgen.clitools.cmdline import SeedAction
 
 from cnfgen.clitools.cmdline import get_formula_helpers
 from cnfgen.clitools.cmdline import get_transformation_helpers
@@ -315,7 +316,7 @@ def setup_command_line_parsers(progname, fhelpers, thelpers):
                         metavar="<seed>",
                         default=None,
                         type=int,
-                        action='store')
+                        action=SeedAction)
     g = parser.add_mutually_exclusive_group()
     g.add_argument('--verbose',
                    '-v',
@@ -503,8 +504,6 @@ def cli(argv=None, mode='output'):
                 )
 
         # Generate the formula and apply transformations
-        if hasattr(args, 'seed') and args.seed:
-            random.seed(args.seed)
 
         try:
             cnf = args.generator.build_formula(args, formula_class=CNF)
@@ -521,7 +520,7 @@ def cli(argv=None, mode='output'):
             except RuntimeError as e:
                 raise InternalBug(e) from e
 
-        if hasattr(args, 'seed') and args.seed:
+        if hasattr(args, 'seed') and args.seed is not None:
             cnf.header['random seed'] = args.seed
         cnf.header['command line'] = "cnfgen " + " ".join(argv[1:])
 
